@@ -23,7 +23,8 @@ Record gerror := { ge_kind : ekind; ge_path : list pe; ge_service : bool (* name
 
 Record request := {
   rq_url : string; rq_optype : opkind; rq_parent : string; rq_sel : list sel;
-  rq_ids : list string; rq_lookup : option lookup_def
+  rq_ids : list string; rq_lookup : option lookup_def;
+  rq_batch : nat                                       (* index of the document within a batched single-entity lookup *)
 }.
 Record response := { r_data : option json (* None: no "data" key *); r_errors : list gerror }.
 
@@ -78,14 +79,23 @@ Section Run.
       end
     end.
 
-  Definition lookup_doc (l : lookup_def) (ss : list sel) (ids : list string) : list sel :=
+  (* execution.go:485 buildBoundaryQueryDocuments; [start] is the running selection index across batches *)
+  Definition lookup_doc_from (start : nat) (l : lookup_def) (ss : list sel) (ids : list string) : list sel :=
     if lk_array l
     then [SField "_result" (lk_field l) [(lk_arg l, VList (map VStr ids))] [] (TList (TNamed (lk_type l) false) true) (Some ss)]
     else (fix go (ids : list string) (i : nat) : list sel :=
             match ids with
             | [] => []
             | id :: r => SField ("_" +++ nat_str i) (lk_field l) [(lk_arg l, VStr id)] [] (TNamed (lk_type l) false) (Some ss) :: go r (S i)
-            end) ids 0.
+            end) ids start.
+  Definition lookup_doc := lookup_doc_from 0.
+  (* execution.go:516 batchBy, with the batch size 50 of execution.go:173 *)
+  Fixpoint chunk (fuel n : nat) (l : list string) : list (list string) :=
+    match fuel with
+    | O => [l]
+    | S fuel => if Nat.leb (List.length l) n then [l] else firstn n l :: chunk fuel n (skipn n l)
+    end.
+  Definition batch_size := 50.
 
   Record acc := { a_results : list exres; a_requests : list request; a_errors : list gerror; a_count : nat }.
 
@@ -106,30 +116,49 @@ Section Run.
               end ;;
       (* what is printed and lexed back: string literals through strconv.Quote and the whitespace collapse, ids through %q *)
       let wired := match wire_ss true ss, wire_ids ids with Some ss', Some ids' => Some (ss', ids') | _, _ => None end in
-      let rq := {| rq_url := url; rq_optype := OQuery; rq_parent := parent;
-                   rq_sel := match wired with Some w => fst w | None => [] end;
-                   rq_ids := match wired with Some w => snd w | None => ids end; rq_lookup := Some l |} in
-      let a1 := {| a_results := a_results a; a_requests := a_requests a ++ [rq]; a_errors := a_errors a; a_count := count |} in
+      let wsel := match wired with Some w => fst w | None => [] end in
+      let wids := match wired with Some w => snd w | None => ids end in
+      (* execution.go:227 executeBoundaryQuery: one document for an array lookup, else one per batch of 50, sent in order;
+         the first failing document ends the step (its data and that of the earlier batches is dropped) *)
+      let batches := if lk_array l then [wids] else chunk (List.length wids) batch_size wids in
+      let mkrq := fun (b : nat) (bids : list string) =>
+        {| rq_url := url; rq_optype := OQuery; rq_parent := parent; rq_sel := wsel; rq_ids := bids; rq_lookup := Some l; rq_batch := b |} in
       let unwrap := fun (d : raw) =>
         match d with
         | RMap m => if lk_array l then match lookup "_result" m with Some (RArr items) => items | _ => [] end
                     else map snd m
         | _ => [] end in
-      match match wired with
-            | Some w => call rq "Query" (lookup_doc l (fst w) (snd w))
-            | None => match w_fault W rq with                    (* the document does not lex: the service rejects it *)
-                      | Some FTimeout => RpFail ETimeout
-                      | Some FStatus | Some FTransport | Some FTooLarge | Some FBadJSON => RpFail EOther
-                      | _ => RpErrors [{| xe_msg := "syntax"; xe_path := [] |}] RNil end
-            end with
+      let one := fun (b : nat) (bids : list string) =>
+        match wired with
+        | Some _ => call (mkrq b bids) "Query" (lookup_doc_from (b * batch_size) l wsel bids)
+        | None => match w_fault W (mkrq b bids) with              (* the document does not lex: the service rejects it *)
+                  | Some FTimeout => RpFail ETimeout
+                  | Some FStatus | Some FTransport | Some FTooLarge | Some FBadJSON => RpFail EOther
+                  | _ => RpErrors [{| xe_msg := "syntax"; xe_path := [] |}] RNil end
+        end in
+      let '(rqs, outcome, _) :=
+        fold_left (fun (st : list request * reply * nat) (bids : list string) =>
+                     let '(rqs, acc_reply, b) := st in
+                     match acc_reply with
+                     | RpData (RArr items) =>
+                         match one b bids with
+                         | RpData d => (rqs ++ [mkrq b bids], RpData (RArr (items ++ unwrap d)), S b)
+                         | RpErrors es partial => (rqs ++ [mkrq b bids], RpErrors es (RArr (if lk_array l then unwrap partial else [])), S b)
+                         | RpFail k => (rqs ++ [mkrq b bids], RpFail k, S b)
+                         end
+                     | _ => st
+                     end) batches ([], RpData (RArr []), 0) in
+      let rq := mkrq 0 wids in
+      let a1 := {| a_results := a_results a; a_requests := a_requests a ++ rqs; a_errors := a_errors a; a_count := count |} in
+      match outcome with
       | RpFail k =>
           Ok {| a_results := a_results a1 ++ [{| er_url := url; er_ip := ip; er_data := RArr [] |}]; a_requests := a_requests a1;
                 a_errors := a_errors a1 ++ [{| ge_kind := k; ge_path := step_error_path ip ss; ge_service := true |}]; a_count := count |}
       | RpErrors es partial =>
-          Ok {| a_results := a_results a1 ++ [{| er_url := url; er_ip := ip; er_data := RArr (if lk_array l then unwrap partial else []) |}];
+          Ok {| a_results := a_results a1 ++ [{| er_url := url; er_ip := ip; er_data := partial |}];
                 a_requests := a_requests a1; a_errors := a_errors a1 ++ errors_of st es; a_count := count |}
       | RpData d =>
-          let items := unwrap d in
+          let items := match d with RArr items => items | _ => [] end in
           let a2 := {| a_results := a_results a1 ++ [{| er_url := url; er_ip := ip; er_data := RArr items |}];
                        a_requests := a_requests a1; a_errors := a_errors a1; a_count := count |} in
           let nonnil := filter (fun x => match x with RNil => false | _ => true end) items in
@@ -158,7 +187,7 @@ Section Run.
       else
       let wired := wire_ss false ss in
       let rq := {| rq_url := url; rq_optype := opkind_of_root parent; rq_parent := parent;
-                   rq_sel := match wired with Some w => w | None => [] end; rq_ids := []; rq_lookup := None |} in
+                   rq_sel := match wired with Some w => w | None => [] end; rq_ids := []; rq_lookup := None; rq_batch := 0 |} in
       let a1 := {| a_results := a_results a; a_requests := a_requests a ++ [rq]; a_errors := a_errors a; a_count := a_count a |} in
       match match wired with
             | Some w => call rq parent w
